@@ -568,6 +568,12 @@ def _graphs(vs, min_edges=1):
 
 def _vertexcover_instances(ctx):
     rng = ctx.rng("c10-vc")
+    # an undirected edge may be listed in both orientations ({(u, v), (v, u)} is a legal edge set): same problem
+    for vs in ([0, 1], [0, 1, 2], ["a", "b", "c"]):
+        for es in _graphs(vs):
+            for r in range(1, len(es) + 1):
+                for twice in itertools.combinations(es, r):
+                    yield {"cls": "VertexCover", "edges": es + [e[::-1] for e in twice]}
     for vs in ([0, 1], [0, 1, 2], [0, 1, 2, 3]):
         for es in _graphs(vs):
             yield {"cls": "VertexCover", "edges": es}
